@@ -181,7 +181,8 @@ theorem step_spec {s : St} {j : J} (op : Op) (hgi : GInv s) (hr : Rel s none j) 
     simp only [step]
     obtain ⟨a, b⟩ := addMessage_spec v d hgi hr
     refine ⟨a, ?_⟩
-    rw [judgeFrom_append]
+    have hv : judgeFrom j (if v = true then [Ev.vreq d] else []) = j := by cases v <;> rfl
+    rw [judgeFrom_append, judgeFrom_append, hv]
     simp only [judgeFrom_cons, judgeFrom_nil]
     rw [st_ok a b]; exact b
   | flush =>
